@@ -123,5 +123,5 @@ Theorem total_is_sum ke ee ei ecp ii : acc_total ke ee ei ecp ii = acc_ke ke + a
 Proof. unfold acc_total, acc_ke, acc_ee, acc_ei, acc_ecp. ring. Qed.
 
 (* ---------- einsum contractions of ewald.py: every one pairs axes of the same meaning ---------- *)
-Lemma ewald3d_sites_typed : forallb site_typed ewald3d_sites = true /\ (5 <=? length ewald3d_sites)%nat = true.
-Proof. split; vm_compute; reflexivity. Qed.
+Lemma ewald3d_sites_typed : forallb site_typed ewald3d_sites = true.
+Proof. vm_compute; reflexivity. Qed.
